@@ -1,5 +1,6 @@
 import EmsModel.Core.DepthProto
 import EmsModel.Lemmas.DepthHyp
+import EmsModel.Lemmas.DepthSignOnlyHyp
 /-! Line-protocol driver for C13 (depth normalisation) and depth-coordinate discovery.
 `norm <DS> <coords|-> <opt>[,<opt>…]`  → `OK <DS'> W=<warnings of pass 1>/<pass 2>…` | `ERR`
       opt = two letters of N/T/F: positive_down, deep_to_shallow; the passes are applied in
@@ -10,6 +11,9 @@ import EmsModel.Lemmas.DepthHyp
 `coordfor <name:d1+d2,…|-> <dims a+b|->`        → name | `ERR`     (get_depth_coordinate_for_data_array)
 `hyp <DS> <coords|->` → `1` iff the hypotheses of the theorems (`Ems.Depth.Valid`, decided by `validB`,
       sound by `validB_sound`) hold for this input
+`hypsign <DS> <coords|->` → `1` iff the hypotheses of the sign-only theorems (`Ems.Depth.ValidSign` + no coordinate
+      is its own bounds; decided by `validSignB`, sound by `validSignB_sound`) hold: one-dimensional coordinates on
+      pairwise different dimensions, any number of levels (one level: a surface-only extract), any values
 `propcheck <DS> <coords> <opt>` → `s<0|1> i<0|1>`: the call succeeds; a second application with
       the same options returns the same dataset (decidable conclusions used by the failing-input search) -/
 open Ems Ems.Proto Ems.Depth Ems.Depth.Proto
@@ -60,6 +64,10 @@ def step (line : String) : String :=
   | ["hyp", dss, coords] =>
     match parseDataset? dss with
     | some ds => if validB ds (parseNames coords) then "1" else "0"
+    | none => "BAD"
+  | ["hypsign", dss, coords] =>
+    match parseDataset? dss with
+    | some ds => if validSignB ds (parseNames coords) then "1" else "0"
     | none => "BAD"
   | ["propcheck", dss, coords, opt] =>
     match parseDataset? dss, parseOpt? opt with
